@@ -185,8 +185,48 @@ func isAtomicBool(name string) func(*types.Func) bool {
 	return func(f *types.Func) bool { return core.IsMethod(f, "sync/atomic", "Bool", name) }
 }
 
+// flagOfCall: the captured variable of Do that an atomic.Bool Load/Store call inside goroutine g operates on.
+func flagOfCall(r *doRoles, g *ssa.Function, call ssa.CallInstruction) ssa.Value {
+	args := call.Common().Args
+	if len(args) == 0 {
+		return nil
+	}
+	fv, ok := args[0].(*ssa.FreeVar)
+	if !ok {
+		return nil
+	}
+	// nested closure (deferred func inside the goroutine): resolve through the chain
+	fn := call.Parent()
+	for fn != nil && fn != g {
+		b := freeVarBinding(fn.Parent(), fn, fv.Name())
+		nfv, ok := b.(*ssa.FreeVar)
+		if !ok {
+			return nil
+		}
+		fv, fn = nfv, fn.Parent()
+	}
+	return freeVarBinding(r.Do, g, fv.Name())
+}
+
 func ruleWatch(c *Ctx, p *core.Program, r *doRoles, prop string) {
 	cfg := p.Cfg.Name
+	// the two flags of the watch: loads whose true edge suppresses the cancel (exception flag)
+	// and loads whose true edge leads to it (receiver-failed flag)
+	var excFlag, failFlag ssa.Value
+	for _, call := range core.FindCalls(r.Watch, isAtomicBool("Load")) {
+		v := call.Value()
+		cq := core.FindCalls(r.Watch, isClientMethod("cancelQuery"))
+		if v == nil || len(cq) != 1 {
+			continue
+		}
+		tr := core.CondEdges(r.Watch, true, func(cond ssa.Value) (bool, bool) { return true, cond == v })
+		fl := core.CondEdges(r.Watch, false, func(cond ssa.Value) (bool, bool) { return true, cond == v })
+		if len(fl) > 0 && core.OnlyViaEdges(r.Watch, cq[0].(ssa.Instruction), fl) {
+			excFlag = flagOfCall(r, r.Watch, call)
+		} else if len(tr) > 0 {
+			failFlag = flagOfCall(r, r.Watch, call)
+		}
+	}
 	// (a) done channel: watch blocks on a channel that the receiver closes by a
 	// defer installed before anything that can fail.
 	rule := prop + ".watch-done"
@@ -281,12 +321,24 @@ func ruleWatch(c *Ctx, p *core.Program, r *doRoles, prop string) {
 			_, ok := core.CallTo(cond, isAtomicBool("Load"))
 			return true, ok
 		})
+		// the exception flag is the one whose set value suppresses the cancel; other flags (receiver failed) are positive disjuncts
+		isExc := func(cond ssa.Value) bool {
+			cl, ok := core.CallTo(cond, isAtomicBool("Load"))
+			return ok && flagOfCall(r, r.Watch, cl) == excFlag && excFlag != nil
+		}
+		excFalse = core.CondEdges(r.Watch, false, func(cond ssa.Value) (bool, bool) { return true, isExc(cond) })
+		excTrue = core.CondEdges(r.Watch, true, func(cond ssa.Value) (bool, bool) { return true, isExc(cond) })
+		posTrue := append([]core.Edge{}, ctxErrTrue...)
+		posTrue = append(posTrue, core.CondEdges(r.Watch, true, func(cond ssa.Value) (bool, bool) {
+			cl, ok := core.CallTo(cond, isAtomicBool("Load"))
+			return true, ok && failFlag != nil && flagOfCall(r, r.Watch, cl) == failFlag
+		})...)
 		if len(ctxErrTrue) == 0 || len(excFalse) == 0 {
 			c.R.Bad(rule, core.FuncName(r.Watch), cfg, p.Pos(cq.Pos()), "the cancel-watch does not test ctx.Err() and the exception flag")
 			return
 		}
-		if !core.OnlyViaEdges(r.Watch, cq, ctxErrTrue) || !core.OnlyViaEdges(r.Watch, cq, excFalse) {
-			c.R.Bad(rule, core.FuncName(r.Watch), cfg, p.Pos(cq.Pos()), "cancelQuery is reachable without ctx.Err()!=nil && !gotException")
+		if !core.OnlyViaEdges(r.Watch, cq, posTrue) || !core.OnlyViaEdges(r.Watch, cq, excFalse) {
+			c.R.Bad(rule, core.FuncName(r.Watch), cfg, p.Pos(cq.Pos()), "cancelQuery is reachable without (ctx.Err()!=nil || receiver failed) && !gotException")
 			return
 		}
 		// completeness: with the (ctx.Err()==nil) and (gotException) edges removed, no exit avoids cancelQuery
@@ -296,7 +348,57 @@ func ruleWatch(c *Ctx, p *core.Program, r *doRoles, prop string) {
 			c.R.Bad(rule, core.FuncName(r.Watch), cfg, p.Pos(w[0].At.Pos()), "a path with a failed context and no exception leaves the watch without calling cancelQuery", p.TrailString(w[0])...)
 			return
 		}
-		c.R.Ok(rule, core.FuncName(r.Watch), cfg, p.Pos(cq.Pos()), "cancelQuery <=> ctx.Err()!=nil && !gotException.Load()")
+		c.R.Ok(rule, core.FuncName(r.Watch), cfg, p.Pos(cq.Pos()), "cancelQuery <=> (ctx.Err()!=nil || receiver failed) && !gotException.Load()")
+	}()
+
+	// (b2) the decision does not depend on the context alone
+	rule = prop + ".watch-order"
+	c.R.Rule(rule, "errgroup cancels the shared context only after a goroutine function has returned, i.e. after the receiver's deferred close(done) has already released the cancel-watch; so the watch must learn of a receiver failure from something ordered before that close: a flag stored by a defer of the receiver that was registered after `defer close(done)` (and therefore runs before it), stored from the receiver's own result, and tested by the watch as an alternative to ctx.Err()")
+	func() {
+		key := core.FuncName(r.Watch)
+		if failFlag == nil {
+			c.R.Bad(rule, key, cfg, p.Pos(r.Watch.Pos()), "the cancel-watch decides on ctx.Err() alone: when the receive loop fails (bad packet, decode error) the watch can run before errgroup has cancelled the context, sees no error, and leaves the client open in the middle of the server stream")
+			return
+		}
+		// receiver: a defer of a closure storing to failFlag, registered after defer close(done)
+		var closeIdx, storeIdx = -1, -1
+		var stored ssa.Value
+		for i, in := range r.Receiver.Blocks[0].Instrs {
+			d, ok := in.(*ssa.Defer)
+			if !ok {
+				continue
+			}
+			if bi, ok := d.Call.Value.(*ssa.Builtin); ok && bi.Name() == "close" {
+				closeIdx = i
+				continue
+			}
+			cl := core.StaticFn(d)
+			if cl == nil {
+				continue
+			}
+			for _, sc := range core.FindCalls(cl, isAtomicBool("Store")) {
+				if flagOfCall(r, r.Receiver, sc) == failFlag {
+					storeIdx = i
+					stored = sc.Common().Args[1]
+				}
+			}
+		}
+		switch {
+		case closeIdx < 0 || storeIdx < 0:
+			c.R.Bad(rule, key, cfg, p.Pos(r.Receiver.Pos()), "the receiver does not record its failure in the flag by a defer in its entry block")
+		case storeIdx < closeIdx:
+			c.R.Bad(rule, key, cfg, p.Pos(r.Receiver.Pos()), "the failure flag is stored by a defer registered before `defer close(done)`: it runs after the watch has been released")
+		default:
+			// the stored value is `result != nil`
+			bo, ok := stored.(*ssa.BinOp)
+			if ok && bo.Op == token.NEQ && (core.IsNilConst(bo.X) || core.IsNilConst(bo.Y)) {
+				c.R.Ok(rule, key, cfg, p.Pos(r.Receiver.Pos()), "receiver stores (err != nil) to the flag before done is closed; the watch tests it besides ctx.Err()")
+			} else if cst, ok := stored.(*ssa.Const); ok && cst.Value != nil && cst.Value.String() == "true" {
+				c.R.Ok(rule, key, cfg, p.Pos(r.Receiver.Pos()), "receiver stores true to the flag before done is closed")
+			} else {
+				c.R.Bad(rule, key, cfg, p.Pos(r.Receiver.Pos()), "what the receiver stores to the failure flag is not its own result being non-nil")
+			}
+		}
 	}()
 
 	// (c) cancelQuery always closes
@@ -339,6 +441,16 @@ func ruleWatch(c *Ctx, p *core.Program, r *doRoles, prop string) {
 		n := 0
 		for _, fn := range core.StaticReachList(r.Do) {
 			for _, call := range core.FindCalls(fn, isAtomicBool("Store")) {
+				if excFlag == nil {
+					continue
+				}
+				g := fn
+				for g != nil && g.Parent() != r.Do {
+					g = g.Parent()
+				}
+				if g == nil || flagOfCall(r, g, call) != excFlag {
+					continue
+				}
 				n++
 				in := call.(ssa.Instruction)
 				edges := core.CondEdges(fn, true, func(cond ssa.Value) (bool, bool) {
